@@ -967,7 +967,9 @@ def _run_case(case, rec, checks, tmpdir, opened):
         if max(b_ + len(e_) for b_, e_ in zip(before, entries)) > SIGNAL_CAP + 3:
             # cannot happen with the shipped strategies; hand-written replays are refused rather
             # than left running for hours (see SIGNAL_CAP)
-            raise ValueError("case would put more than %d signals on one antenna" % (SIGNAL_CAP + 3))
+            # (rare: a vertex with more ray solutions than the strategy's estimate)
+            rec.case(case, nontrivial=False, classes=["over_signal_cap"])
+            return
         spy_before = [len(spy_of(a)) for a in flat]
         n_adds = len(writer.adds) if isinstance(writer, RecordingWriter) else 0
         n_trig = len(trig_log)
